@@ -543,6 +543,11 @@ def jobs(tier):
     js.append(Job("solid.v1[npal=3]", job_solid_v1, npal=3))
     js.append(Job("colr_ufo.palette[v0]", job_colr_ufo_palette, version=0))
     js.append(Job("colr_ufo.palette[v1]", job_colr_ufo_palette, version=1))
+    # explicit indices declared in the source (fills and gradient stops) must reach the paints
+    from harness import C01_source
+
+    for name in ("gradient stops with palette variables", "palette variable whose default has an alpha channel + shape opacity", "currentColor and palette variables"):
+        js.append(Job(f"source[{name}|user identity]", C01_source.job_source, source=name, user="identity"))
     return js
 
 
